@@ -85,6 +85,15 @@ Theorem C10_zero_returns_immediately : forall nested maxpar w ht os, apply_f_pat
 Proof. exact zero_returns. Qed.
 Print Assumptions C10_zero_returns_immediately.
 
+(* -- the thread count that dispatch_apply_f hands to the parallel / redirect path satisfies the hypotheses of the
+      protocol theorems (valid_params) and of the width theorem: 2 <= T <= min(iterations, max parallelism) -- *)
+Theorem C10_path_thread_count : forall iterations nested maxpar w ht os T,
+  1 <= iterations < 18446744073709551616 -> 0 <= maxpar < 2147483648 -> 0 <= nested < 18446744073709551616 ->
+  (apply_f_path iterations nested maxpar w ht os = PathParallel T \/ apply_f_path iterations nested maxpar w ht os = PathRedirect T) ->
+  2 <= T <= iterations /\ T <= maxpar.
+Proof. exact path_thread_count. Qed.
+Print Assumptions C10_path_thread_count.
+
 (* -- ties: the model's atomic sites and memory orders are the source's; the global model moves participants by the
       automaton that the recorded traces of the real library are replayed through -- *)
 Theorem C10_sites_match_source :
